@@ -508,8 +508,9 @@ def deep_job(fam, kind, sizes, n, order):
         pa, pb = O.outcome(pickle.dumps, a, 2), O.outcome(pickle.dumps, b, 2)
         guards['pickles_compared'] += 1
         if pa != pb:
+            # reported, but the walk goes on: the shapes agree (for the fs family this is the
+            # known memoisation difference F24 in every multi-bucket state)
             rep.add(dict(sig, cls='bytes-differ', site='pickle'), case, 'C %r\nPy %r' % (pa, pb))
-            return None
         probs = C.walk(ca, cc.is_map, *sizes)
         if probs:
             rep.add(dict(sig, cls='walk'), case, '; '.join(probs[:3]))
